@@ -187,7 +187,8 @@ theorem code_moves_match_model :
        "defer | p.stats.Upstream.CxDestroyTotal.Inc",
        "defer | p.stats.Upstream.CxActive.Dec",
        "go | select <-host.WaitRemoved() | return",
-       "go | select <-done | return"] ∧
+       "go | select <-p.quit | return",
+       "go | select <-finished | return"] ∧
     Gen.Stats.handleRequest =
       ["p.stats.Downstream.RqTotal.Inc",
        "hook | case req.Response().Type = Error | p.stats.Downstream.RqFailureTotal.Inc",
